@@ -317,14 +317,68 @@ class Tracker:
             self._mixed = mixed
             self._propagate(blocks)
         # decisions
+        self._decide_all(blocks)
+        # materialised verdicts: `let hit = matches!(x, Some(k) if k == key); … if hit { … }` — a bool variable whose every definition
+        # is a constant, `true` only behind accepting edges and `false` never after one (or the mirror image), carries the verdict
+        for _round in range(3):
+            if not (self.accept or self.reject) or not self._materialised(blocks):
+                break
+            self._propagate(blocks)
+            self._decide_all(blocks)
+        return self
+
+    def _decide_all(self, blocks):
         for b in blocks:
             t = b["term"]
             if t["k"] != "switch":
                 continue
             l = op_local(t["on"])
-            for st in self.states.get(l, ()):
+            for st in list(self.states.get(l, ())):
                 self._decide(b["id"], t, st)
-        return self
+
+    def _materialised(self, blocks):
+        defs = {}
+        bad = set()
+        for b in blocks:
+            for s in b["stmts"]:
+                if len(s["d"]) != 1:
+                    if s["d"]:
+                        bad.add(s["d"][0])
+                    continue
+                rv = s["rv"]
+                if rv["k"] == "use" and rv["a"][0] == "c" and rv["a"][1] in ("true", "false"):
+                    defs.setdefault(s["d"][0], []).append((b["id"], rv["a"][1] == "true"))
+                else:
+                    bad.add(s["d"][0])
+            t = b["term"]
+            if t["k"] == "call" and t.get("d"):
+                bad.add(t["d"][0])
+        g = self.g
+        added = False
+        free_acc = g.reach((0,), cut=self.accept) if self.accept else None
+        free_rej = g.reach((0,), cut=self.reject) if self.reject else None
+        after_acc = g.reach(tuple(d for _, d in self.accept)) if self.accept else set()
+        after_rej = g.reach(tuple(d for _, d in self.reject)) if self.reject else set()
+        for l, ds in defs.items():
+            if l in bad or l in self.states or len(ds) < 2:
+                continue
+            T = {b for b, v in ds if v}
+            Fb = {b for b, v in ds if not v}
+            if not T or not Fb:
+                continue
+            st = None
+            if free_acc is not None and not (T & free_acc) and not (Fb & after_acc):
+                st = ("bool", (), False)        # true  <=> accepted
+            elif free_acc is not None and not (Fb & free_acc) and not (T & after_acc):
+                st = ("bool", (), True)         # false <=> accepted
+            elif free_rej is not None and not (T & free_rej) and not (Fb & after_rej):
+                st = ("bool", (), True)         # true  <=> rejected
+            elif free_rej is not None and not (Fb & free_rej) and not (T & after_rej):
+                st = ("bool", (), False)        # false <=> rejected
+            if st is not None:
+                self.states.setdefault(l, set()).add(st)
+                added = True
+        return added
 
     def _note(self, d, site):
         self._contrib.setdefault(d, set()).add(site)
@@ -428,6 +482,12 @@ class Tracker:
                     return ("bool", (), not neg)
                 if negv:
                     return ("bool", (), neg)
+        if wrap == "val" and len(steps) == 1:
+            # the variant survives, the payload changes: only the outer shape may be carried over
+            if steps[0] in ("Some", "None") and (c.endswith("Option::map") or c.endswith("Option::cloned") or c.endswith("Option::copied")):
+                return st
+            if steps[0] in ("Ok", "Err") and c.endswith("Result::map"):
+                return st
         if wrap == "val" and steps:
             if c.endswith("Result::map_err") or c.endswith("Result::as_ref") or c.endswith("Option::as_ref") \
                     or c.endswith("Result::inspect_err") or c.endswith("Result::inspect") or c.endswith("Option::inspect") \
